@@ -152,11 +152,13 @@ func init() {
 			v2ops := maxOps - 1 // each v2 sequence costs a helper process in its own mount namespace
 			if c20v2 {
 				// replayed inside the v2 mount namespace: the family choice is still consumed
-				x.Choose(5, "family")
+				x.Choose(6, "family")
 				c20sequence(x, v2ops)
 				return
 			}
-			switch x.Choose(5, "family") {
+			switch x.Choose(6, "family") {
+			case 5:
+				c20many(x)
 			case 4:
 				c20schedOnV2(x)
 			case 3:
@@ -676,6 +678,72 @@ type c20sched struct {
 
 var c20schedScenarios = []string{"New+New(same name)", "Random+Random(same first draw)", "New+Destroy-by-other-creator",
 	"cgroup.New+cgroup.New(same prefix)", "cgroup.New+Destroy-by-other-creator(same prefix)"}
+
+// family "many members": a group with more member processes than one page of cgroup.procs lists (the kernel hands out
+// whole lines, one page at a time). Processes() must list every member, Nest must move every one of them.
+func c20many(x *mc.X) {
+	n := []int{100, 700, 1100}[x.Choose(3, "members")]
+	op := x.Pick("operation", "Processes", "Nest")
+	x.Note("scenario", fmt.Sprintf("%s on a group of %d processes", op, n+1))
+	if x.Dry() {
+		return
+	}
+	c20cleanup()
+	defer c20cleanup()
+	rel := c20prefix() + "/many"
+	cg, err := cgroup.New(rel, &cgroup.Controllers{Memory: true, Pids: true})
+	if err != nil {
+		x.Failf("C20/harness", "many: New: %v", err)
+		return
+	}
+	defer cg.Destroy()
+	helper := exec.Command(probe("threads"), "f", fmt.Sprint(n))
+	helper.SysProcAttr = &syscall.SysProcAttr{Setsid: true}
+	hin, _ := helper.StdinPipe()
+	hout, _ := helper.StdoutPipe()
+	if err := helper.Start(); err != nil {
+		x.Failf("C20/harness", "%v", err)
+		return
+	}
+	defer func() { syscall.Kill(-helper.Process.Pid, syscall.SIGKILL); helper.Wait() }()
+	if err := cg.AddProc(helper.Process.Pid); err != nil {
+		x.Failf("C20/harness", "many: AddProc: %v", err)
+		return
+	}
+	hin.Write([]byte{'g'})
+	hout.Read(make([]byte, 8)) // "ready": the children exist, all born in the group
+	raw := func(dir string) int {
+		b, _ := os.ReadFile(filepath.Join(dir, "cgroup.procs"))
+		return len(strings.Fields(string(b)))
+	}
+	dir := "/sys/fs/cgroup/memory/" + rel
+	if got := raw(dir); got != n+1 {
+		x.Failf("C20/harness", "many: the group holds %d processes, expected %d", got, n+1)
+		return
+	}
+	x.Distinct(fmt.Sprint("many", n, op))
+	x.Outcome("many:" + op)
+	switch op {
+	case "Processes":
+		ps, err := cg.Processes()
+		if err != nil || len(ps) != n+1 {
+			x.Failf("C20/many/processes-lists-a-part", "Processes() of a group of %d processes returned %d pids (error %v)", n+1, len(ps), err)
+		}
+	case "Nest":
+		sub, err := cg.Nest("inner")
+		if err != nil {
+			x.Failf("C20/many/nest-failed", "Nest on a group of %d processes: %v", n+1, err)
+			return
+		}
+		defer sub.Destroy()
+		for _, ctl := range []string{"memory", "pids"} {
+			left, moved := raw("/sys/fs/cgroup/"+ctl+"/"+rel), raw("/sys/fs/cgroup/"+ctl+"/"+rel+"/inner")
+			if left != 0 || moved != n+1 {
+				x.Failf("C20/many/nest-moved-a-part", "Nest on a group of %d processes returned nil; under %s %d processes are in the sub-group and %d stayed in the parent", n+1, ctl, moved, left)
+			}
+		}
+	}
+}
 
 func c20schedules(x *mc.X) {
 	scen := x.Pick("scenario", c20schedScenarios...)
